@@ -235,6 +235,17 @@ func c12ValidMSP[S algebra.PrimeFieldElement[S]](v *msp.MSP[S]) error {
 	for k, id := range v.RowsToHolders().Iter() {
 		lab[k] = id
 	}
+	// the rules themselves, independently of the constructor: a non-zero label for exactly the
+	// rows 0 .. rows-1
+	rows, cols := v.Matrix().Dimensions()
+	if rows < 1 || cols < 1 || len(lab) != rows {
+		return fmt.Errorf("%d labels for a %dx%d matrix", len(lab), rows, cols)
+	}
+	for i := 0; i < rows; i++ {
+		if id, ok := lab[i]; !ok || id == 0 {
+			return fmt.Errorf("row %d has no label or the label 0", i)
+		}
+	}
 	w, err := msp.NewMSP(v.Matrix(), lab)
 	if err != nil {
 		return err
@@ -829,6 +840,27 @@ func init() {
 		gen:   func(r *Rng) (*hierarchical.HierarchicalConjunctiveThreshold, error) { return c12GenHierarchicalOpt(r, true) },
 		equal: c12EqHierarchical,
 		valid: func(v *hierarchical.HierarchicalConjunctiveThreshold) error {
+			// the rules themselves: thresholds strictly increasing from above 0, parties without 0,
+			// levels disjoint, each threshold at most the number of parties so far
+			prev, seen := 0, map[sharing.ID]bool{}
+			if len(v.Levels()) == 0 {
+				return errC12("no level")
+			}
+			for _, l := range v.Levels() {
+				if l == nil || l.Threshold() <= prev {
+					return errC12("thresholds not strictly increasing")
+				}
+				prev = l.Threshold()
+				for p := range l.Shareholders().Iter() {
+					if p == 0 || seen[p] {
+						return errC12("party 0 or a party in two levels")
+					}
+					seen[p] = true
+				}
+				if len(seen) < l.Threshold() {
+					return errC12("threshold above the number of parties so far")
+				}
+			}
 			w, err := hierarchical.NewHierarchicalConjunctiveThresholdAccessStructure(v.Levels()...)
 			if err != nil {
 				return err
